@@ -26,12 +26,25 @@ pub const KNOWN_STATUS: &[u16] = &[
 pub enum Api {
     Command,
     Capability,
+    /// capability `send_async()`: the app gets the raw `ResponseAsync` (no classification by status)
+    /// and reads status, headers and body (`body_bytes` / `body_string` / `body_json`) itself
+    CapabilityAsync,
 }
 #[derive(Debug, Clone, Copy, PartialEq, Eq, Hash, Serialize, Deserialize)]
 pub enum Expect {
     Bytes,
     Str,
     Json,
+    /// `expect_json::<T>()` / `body_json::<T>()` for a struct
+    Typed,
+}
+
+#[derive(Debug, Clone, PartialEq, Deserialize)]
+pub struct TypedJ {
+    pub a: u32,
+    #[serde(default)]
+    pub b: Option<String>,
+    pub c: Vec<i16>,
 }
 #[derive(Debug, Clone, PartialEq, Eq, Hash, Serialize, Deserialize)]
 pub enum Reply {
@@ -53,6 +66,8 @@ pub enum Seen {
     Ok { status: u16, headers: BTreeMap<String, Vec<String>>, body: Body },
     HttpErr { status: u16, body: Option<Vec<u8>>, message: String },
     JsonErr(String),
+    /// async API: reading the body as a string failed
+    DecodeErr(String),
     Url(String),
     Io(String),
     Timeout,
@@ -62,6 +77,7 @@ pub enum Body {
     Bytes(Option<Vec<u8>>),
     Str(Option<String>),
     Json(Option<serde_json::Value>),
+    Typed(Option<TypedJ>),
 }
 
 fn headers_of<B>(r: &Response<B>) -> BTreeMap<String, Vec<String>> {
@@ -83,12 +99,16 @@ pub enum Event {
     Bytes(crux_http::Result<Response<Vec<u8>>>),
     Str(crux_http::Result<Response<String>>),
     Json(crux_http::Result<Response<serde_json::Value>>),
+    Typed(crux_http::Result<Response<TypedJ>>),
+    GoAsync(Expect),
+    Async(Seen),
 }
 
 #[derive(Effect)]
 #[allow(dead_code)]
 pub struct Capabilities {
     pub http: crux_http::Http<Event>,
+    pub compose: crux_core::compose::Compose<Event>,
     pub render: Render<Event>,
 }
 #[derive(Default)]
@@ -111,8 +131,39 @@ impl crux_core::App for App {
                     Expect::Bytes => b.send(Event::Bytes),
                     Expect::Str => b.expect_string().send(Event::Str),
                     Expect::Json => b.expect_json::<serde_json::Value>().send(Event::Json),
+                    Expect::Typed => b.expect_json::<TypedJ>().send(Event::Typed),
                 }
             }
+            Event::GoAsync(e) => {
+                let http = caps.http.clone();
+                caps.compose.spawn(|ctx| async move {
+                    let seen = match http.get("http://example.com/").send_async().await {
+                        Err(HttpError::Http { code, body, message }) => Seen::HttpErr { status: code as u16, body, message },
+                        Err(HttpError::Json(m)) => Seen::JsonErr(m),
+                        Err(HttpError::Url(m)) => Seen::Url(m),
+                        Err(HttpError::Io(m)) => Seen::Io(m),
+                        Err(HttpError::Timeout) => Seen::Timeout,
+                        Ok(mut r) => {
+                            let status = r.status() as u16;
+                            let headers: BTreeMap<String, Vec<String>> = r.iter().map(|(n, vs)| (n.as_str().to_string(), vs.iter().map(|v| v.as_str().to_string()).collect())).collect();
+                            let body = match e {
+                                Expect::Bytes => r.body_bytes().await.map(|b| Body::Bytes(Some(b))),
+                                Expect::Str => r.body_string().await.map(|b| Body::Str(Some(b))),
+                                Expect::Json => r.body_json::<serde_json::Value>().await.map(|b| Body::Json(Some(b))),
+                                Expect::Typed => r.body_json::<TypedJ>().await.map(|b| Body::Typed(Some(b))),
+                            };
+                            match body {
+                                Ok(body) => Seen::Ok { status, headers, body },
+                                Err(HttpError::Json(m)) => Seen::JsonErr(m),
+                                Err(other) => Seen::DecodeErr(other.to_string()),
+                            }
+                        }
+                    };
+                    ctx.update_app(Event::Async(seen));
+                });
+            }
+            Event::Async(s) => m.seen.push(s),
+            Event::Typed(r) => m.seen.push(seen(r, |r| Body::Typed(r.body().cloned()))),
             Event::Bytes(r) => m.seen.push(seen(r, |r| Body::Bytes(r.body().cloned()))),
             Event::Str(r) => m.seen.push(seen(r, |r| Body::Str(r.body().cloned()))),
             Event::Json(r) => m.seen.push(seen(r, |r| Body::Json(r.body().cloned()))),
@@ -152,6 +203,7 @@ fn observe(c: &Case) -> Result<Vec<Seen>, String> {
                 Expect::Bytes => b.build().then_send(Event::Bytes),
                 Expect::Str => b.expect_string().build().then_send(Event::Str),
                 Expect::Json => b.expect_json::<serde_json::Value>().build().then_send(Event::Json),
+                Expect::Typed => b.expect_json::<TypedJ>().build().then_send(Event::Typed),
             };
             let mut effs: Vec<CmdEffect> = cmd.effects().collect();
             let mut out = vec![];
@@ -165,14 +217,15 @@ fn observe(c: &Case) -> Result<Vec<Seen>, String> {
                     Event::Bytes(r) => seen(r, |r| Body::Bytes(r.body().cloned())),
                     Event::Str(r) => seen(r, |r| Body::Str(r.body().cloned())),
                     Event::Json(r) => seen(r, |r| Body::Json(r.body().cloned())),
-                    Event::Go(_) => unreachable!(),
+                    Event::Typed(r) => seen(r, |r| Body::Typed(r.body().cloned())),
+                    Event::Go(_) | Event::GoAsync(_) | Event::Async(_) => unreachable!(),
                 });
             }
             out
         }
-        Api::Capability => {
+        Api::Capability | Api::CapabilityAsync => {
             let core: Core<App> = Core::new();
-            let effs = core.process_event(Event::Go(c.expect));
+            let effs = core.process_event(if c.api == Api::Capability { Event::Go(c.expect) } else { Event::GoAsync(c.expect) });
             let mut https: Vec<Request<HttpRequest>> = effs.into_iter().filter_map(|e| if let Effect::Http(r) = e { Some(r) } else { None }).collect();
             if https.len() != 1 {
                 return vec![];
@@ -261,7 +314,7 @@ pub fn judge(c: &Case) -> Result<(), (String, String)> {
         Reply::Io(m) => (got == &Seen::Io(m.clone())).then_some(()).ok_or(("shell-error-altered".into(), format!("shell error Io({m:?}) reached the app as {got:?}"))),
         Reply::Timeout => (got == &Seen::Timeout).then_some(()).ok_or(("shell-error-altered".into(), format!("shell error Timeout reached the app as {got:?}"))),
         Reply::Response { status, headers, body } => {
-            if *status >= 400 && *status <= 599 {
+            if *status >= 400 && *status <= 599 && c.api != Api::CapabilityAsync {
                 return match got {
                     Seen::HttpErr { status: s, body: b, .. } if s == status && b.as_ref() == Some(body) => Ok(()),
                     other => Err(("error-status-misclassified".into(), format!("status {status} must become an HTTP error carrying status and body, got {other:?}"))),
@@ -313,6 +366,14 @@ pub fn judge(c: &Case) -> Result<(), (String, String)> {
                     Err(_) => Err(("invalid-json-accepted".into(), "invalid JSON was accepted".into())),
                 },
                 (Expect::Json, Seen::JsonErr(_)) if serde_json::from_slice::<serde_json::Value>(body).is_err() => Ok(()),
+                (Expect::Typed, Seen::Ok { status: s, headers: h, body: Body::Typed(b) }) => match serde_json::from_slice::<TypedJ>(body) {
+                    Ok(want) if b.as_ref() == Some(&want) => check_meta(*s, h),
+                    Ok(want) => Err(("json-altered".into(), format!("typed JSON {want:?} became {b:?}"))),
+                    Err(_) => Err(("invalid-json-accepted".into(), "a body that is not a valid encoding of the expected type was accepted".into())),
+                },
+                (Expect::Typed, Seen::JsonErr(_)) if serde_json::from_slice::<TypedJ>(body).is_err() => Ok(()),
+                // async API: an undecodable string body is reported by whatever error `body_string` returns
+                (Expect::Str, Seen::DecodeErr(_)) if c.api == Api::CapabilityAsync && !matches!(reference_decode(body, headers), Reference::Exactly(_)) => Ok(()),
                 (_, other) => Err(("success-misclassified".into(), format!("status {status} ({:?} expected) reached the app as {other:?}", c.expect))),
             }
         }
@@ -346,6 +407,7 @@ fn bodies() -> BoxedStrategy<Vec<u8>> {
         1 => prop::collection::vec(any::<u8>(), 0..6).prop_map(|v| [&[0xfe, 0xff][..], &v].concat()),
         1 => Just(vec![0xb3, 0xbb, 0x20, 0xc7, 0xb0, 0xc0, 0xb8]),
         2 => Just(b"{\"a\":[1,2,{\"b\":null}],\"c\":\"\\u00e9\"}".to_vec()),
+        2 => prop_oneof![Just(&b"{\"a\":1,\"c\":[1,-2]}"[..]), Just(&b"{\"c\":[],\"b\":\"\\u00e9\",\"a\":4294967295}"[..]), Just(&b"{\"a\":-1,\"c\":[]}"[..]), Just(&b"{\"a\":1,\"c\":[1],\"extra\":true}"[..]), Just(&b"{\"a\":1,\"c\":[]}}"[..]), Just(&b"{\"a\":1,\"c\":[]} \n"[..]), Just(&b"{\"a\":1,\"c\":[40000]}"[..]), Just(&b"[1,2]trailing"[..])].prop_map(|b| b.to_vec()),
         1 => Just(b"{bad json".to_vec()),
         1 => Just(b"123".to_vec()),
         1 => prop::collection::vec(any::<u8>(), 4000..6000),
@@ -364,7 +426,7 @@ pub fn strategy() -> BoxedStrategy<Case> {
         1 => values().prop_map(Reply::Io),
         1 => Just(Reply::Timeout),
     ];
-    (prop_oneof![Just(Api::Command), Just(Api::Capability)], prop_oneof![Just(Expect::Bytes), Just(Expect::Str), Just(Expect::Json)], reply).prop_map(|(api, expect, reply)| Case { api, expect, reply }).boxed()
+    (prop_oneof![Just(Api::Command), Just(Api::Capability), Just(Api::CapabilityAsync)], prop_oneof![Just(Expect::Bytes), Just(Expect::Str), Just(Expect::Json), Just(Expect::Typed)], reply).prop_map(|(api, expect, reply)| Case { api, expect, reply }).boxed()
 }
 
 const KNOWN_SIGS: &[&str] = &["panic-status-outside-http-types-table", "panic-non-ascii-header", "content-type-octet-stream-injected", "utf8-bom-retained"];
@@ -390,11 +452,13 @@ pub fn main(mode: Mode) {
             match c.api {
                 Api::Command => "api:command",
                 Api::Capability => "api:capability",
+                Api::CapabilityAsync => "api:capability-async",
             },
             match c.expect {
                 Expect::Bytes => "expect:bytes",
                 Expect::Str => "expect:string",
                 Expect::Json => "expect:json",
+                Expect::Typed => "expect:typed-json",
             },
             match &c.reply {
                 Reply::Response { status, .. } if !KNOWN_STATUS.contains(status) => "status:unknown-to-http-types",
